@@ -307,6 +307,15 @@ def generate(unit_dir, canary=False):
             tl.pop()
         while tl and tl[0][0] == "b" and tl[0][1].strip() == "":
             tl.pop(0)
+        if attrs["kind"] in ("fn", "region"):
+            def loop_kinds(txt):
+                tk = code_tokens(txt)
+                return [t.text for i, t in enumerate(tk) if t.kind == "ident" and t.text in ("for", "while", "loop") and not (t.text == "for" and i + 1 < len(tk) and tk[i + 1].text == "<")]
+            base_kinds = loop_kinds("\n".join(strip_inline(t) for k_, t in tl if k_ == "b"))
+            cur_kinds = loop_kinds("\n".join(cur_lines))
+            if base_kinds != cur_kinds and not (attrs.get("contract_only") or attrs.get("body") == "opaque"):
+                # the proof script is keyed to the loop structure: a different structure cannot be judged by it
+                raise Undecided("loop-structure-changed", "%s: loops were %s, now %s" % (item_id, base_kinds, cur_kinds))
         placed, changed = place_annotations(tl, cur_lines, item_id)
         has_requires = any(a and re.match(r"\s*requires\b", t) for a, t, _ in placed)
         out_lines.append("//#item-begin %s" % item_id)
